@@ -1081,3 +1081,675 @@ class C18(FaultMonitorMixin, BaseMonitor):
 
 
 MONITORS["C18"] = C18
+
+
+# ---------------------------------------------------------------------------------------------------
+# C19
+
+ORDER_IRRELEVANT = {("System", "usage_patterns"), ("UsagePattern", "devices"), ("UsageJourneyStep", "jobs")}
+
+
+def near_integer_instances(world, names_):
+    """Objects whose raw number of instances has a non-zero value within 1e-7 of an integer: there a ceil() turns
+    floating-point noise into a unit step (discontinuity guard, DESIGN 2.5)."""
+    import numpy as np
+    from efootprint.abstract_modeling_classes.explainable_objects import ExplainableHourlyQuantities
+    out = []
+    for n in names_:
+        raw = getattr(world.objs[n], "raw_nb_of_instances", None)
+        if isinstance(raw, ExplainableHourlyQuantities):
+            v = np.asarray(raw.value["value"].values._data, dtype=float)
+            v = v[np.abs(v) > 1e-12]
+            if len(v) and np.any(np.abs(v - np.round(v)) < 1e-7 * np.maximum(1.0, np.abs(v))):
+                out.append(n)
+    return out
+
+
+class C19(BaseMonitor):
+    """Results are independent of creation order, identifiers and hashing."""
+    prop = "C19"
+    MIX = [(opgen.gen_numeric, 40), (opgen.gen_categorical, 8), (opgen.gen_provider_switch, 2), (opgen.gen_hourly, 8),
+           (opgen.gen_link, 12), (opgen.gen_new_storage, 2), (opgen.gen_list_assign, 12), (opgen.gen_group, 8),
+           (opgen.gen_remove_up, 3), (opgen.gen_permute_ups, 3), (opgen.gen_noop, 2)]
+
+    @staticmethod
+    def spec_generator(k, cfg, index):
+        if index % 3 == 0:
+            cfg["builders"] = True
+        if index % 2 == 0:
+            cfg["n_up"] = max(cfg["n_up"], 2)
+            cfg["p_share_job"] = max(cfg["p_share_job"], 0.3)
+        return gen.gen_spec(k, cfg)
+
+    # -- the order-irrelevant permutation (variant 3) ---------------------------------------------
+    def permuted(self, names_, cls, attr, key):
+        if (cls, attr) in ORDER_IRRELEVANT and len(names_) > 1:
+            return self.k.shuffled(names_, "perm", key, attr, len(names_))
+        return list(names_)
+
+    def permute_spec(self, spec):
+        sp = S.clone(spec)
+        for n, o in sp["objs"].items():
+            for a, v in o["attrs"].items():
+                if v is not None and v[0] == "refs":
+                    o["attrs"][a] = ["refs", self.permuted(v[1], o["cls"], a, n)]
+        return sp
+
+    def permute_op(self, op, spec):
+        op = copy.deepcopy(op)
+
+        def fix(ch):
+            v = ch.get("value")
+            if v is not None and v[0] == "refs" and ch["obj"] in spec["objs"]:
+                ch["value"] = ["refs", self.permuted(v[1], spec["objs"][ch["obj"]]["cls"], ch["attr"],
+                                                     (ch["obj"], op.get("i")))]
+        if op["op"] == "set":
+            fix(op)
+        elif op["op"] == "group":
+            for ch in op["changes"]:
+                fix(ch)
+        elif op["op"] == "compound":
+            op["steps"] = [self.permute_op(s_, spec) for s_ in op["steps"]]
+        return op
+
+    def on_start(self):
+        base = self.res.header["spec"]
+        salt = self.sim.salt
+        self.variants = [("ids+creation-order as generated", self.sim, False)]
+        v1 = Sim(base, salt + ":ids-B")
+        self.variants.append(("other identifiers", v1, False))
+        v2 = Sim(base, salt, build=False)
+        v2.world = S.build_world(v2.spec, salt, perm=self.k.sub("creation-order"))
+        self.variants.append(("other creation order", v2, False))
+        psp = self.permute_spec(base)
+        v3 = Sim(psp, salt + ":ids-C", build=False)
+        v3.world = S.build_world(v3.spec, salt + ":ids-C", perm=self.k.sub("creation-order-2"))
+        self.variants.append(("other ids, creation order and order-irrelevant list orders", v3, True))
+        self.compare_variants(-1, {"op": "initial"})
+
+    def next_op(self, i):
+        return opgen.gen_edit(self.k.rng("op", i), self.sim.spec, self.cfg, i, mix=self.MIX)
+
+    def step(self, i, op):
+        statuses = []
+        for label, sim, perm in self.variants:
+            vop = self.permute_op(op, sim.spec) if perm else op
+            self.sim_for_execute = sim
+            try:
+                from efsim.runner import watchdog, Hang
+                try:
+                    with watchdog():
+                        sim.apply(vop)
+                    statuses.append("ok")
+                except opgen_skip():
+                    statuses.append("skip")
+                except Hang as h:
+                    raise Violation("C19", "hang", {h.site}, f"variant '{label}' does not return in {h.site}", i, op_kind(op))
+                except Violation:
+                    raise
+                except Exception as e:
+                    statuses.append("raised:" + type(e).__name__)
+            finally:
+                pass
+        if len(set(s_.split(":")[0] for s_ in statuses)) > 1:
+            raise Violation("C19", "accept_raise_disagreement", {op_kind(op)},
+                            f"variants disagree on {op_kind(op)}: " + ", ".join(
+                                f"{lab}: {st}" for (lab, _, _), st in zip(self.variants, statuses)), i, op_kind(op))
+        if statuses[0].startswith("raised"):
+            self.res.count("ended_on_raise:" + statuses[0].split(":")[1])
+            self.stop = "op_raised"
+            return "raised"
+        if statuses[0] == "skip":
+            return "skip"
+        self.compare_variants(i, op)
+        return "ok"
+
+    def compare_variants(self, i, op):
+        base_sim = self.variants[0][1]
+        names_ = S.closure(base_sim.spec)
+        base = C.calc_snapshot(base_sim.world, names_)
+        for label, sim, perm in self.variants[1:]:
+            other = C.calc_snapshot(sim.world, [n for n in names_ if n in sim.world.objs])
+            diffs = C.diff_snapshots(base, other, self.cls_of)
+            self.res.count("values_compared", len(base))
+            if diffs:
+                near = near_integer_instances(base_sim.world, names_) + near_integer_instances(sim.world, names_)
+                if near:
+                    self.res.count("excused_boundary")
+                    self.stop = "excused_boundary"
+                    return
+                raise Violation("C19", "variants_differ", self.where_of(diffs), f"'{label}' vs '{self.variants[0][0]}': "
+                                + self.fmt(diffs), i, op_kind(op))
+
+    def on_end(self):
+        # ship the final values of variant 0 so that the parent can compare processes run under other hash seeds
+        base_sim = self.variants[0][1]
+        names_ = S.closure(base_sim.spec)
+        snap = C.calc_snapshot(base_sim.world, names_)
+        out = {}
+        for (n, a), v in snap.items():
+            out[f"{n}.{a}"] = jsonable(v)
+        self.res.extra["final_values"] = out
+        self.res.extra["near_integer"] = near_integer_instances(base_sim.world, names_)
+
+
+def opgen_skip():
+    from efsim.sim import OpSkipped
+    return OpSkipped
+
+
+def jsonable(v):
+    if v[0] == "h":
+        return ["h", v[1], [int(x) for x in v[2]], [float(x) for x in v[3]], v[4]]
+    if v[0] == "d":
+        return ["d", {k_: jsonable(x) for k_, x in v[1].items()}]
+    return list(v)
+
+
+def from_jsonable(v):
+    import numpy as np
+    if v[0] == "h":
+        return ("h", v[1], np.asarray(v[2], dtype=np.int64), np.asarray(v[3], dtype=float), v[4])
+    if v[0] == "d":
+        return ("d", {k_: from_jsonable(x) for k_, x in v[1].items()})
+    return tuple(v)
+
+
+MONITORS["C19"] = C19
+
+
+# ---------------------------------------------------------------------------------------------------
+# shared history generator for the monitor-style properties (C07, C08): every op and fault kind
+
+def gen_mixed_op(mon, i, p_sim=0.12, p_restart=0.06, p_fail=0.08, p_bad=0.06, p_read=0.06):
+    r = mon.k.rng("op", i)
+    sim = mon.sim
+    spec = sim.spec
+    inside = set(S.closure(spec))
+    broken = getattr(mon, "broken_reverts", [])
+    if broken:
+        op = dict(broken[0])
+        op["i"] = i
+        return op
+    x = r.random()
+    if x < p_sim:
+        op = opgen.gen_simulate(r, spec, mon.cfg, inside, i)
+        if op is not None:
+            return op
+    x -= p_sim
+    if 0 <= x < p_restart and i > 0:
+        return {"op": "restart", "with_calc": r.random() < 0.5, "v9": r.random() < 0.3, "fault": "F3", "i": i}
+    x -= p_restart
+    if 0 <= x < p_fail:
+        cands = [c for c in faults.failing_edits(sim, r) if c["op"] == "set" and c["attr"] != "devices"]
+        if cands:
+            op = r.choice(cands)
+            op["i"] = i
+            return op
+    x -= p_fail
+    if 0 <= x < p_bad:
+        present = sorted({o["cls"] for n_, o in spec["objs"].items() if n_ in inside})
+        entries = [e for e in faults.catalogue(spec, r.choice(present)) if e["strong"]]
+        if entries:
+            e = r.choice(entries)
+            return {"op": "bad_set", "obj": e["obj"], "attr": e["attr"], "value": e["value"], "fault": e["fault"],
+                    "strong": True, "i": i}
+    x -= p_bad
+    if 0 <= x < p_read:
+        objs = sorted(inside)
+        return {"op": "read", "kind": r.choice(READ_KINDS), "targets": [r.choice(objs) for _ in range(2)],
+                "with_calc": True, "cumsum": False, "fault": "F6", "i": i}
+    return opgen.gen_edit(r, spec, mon.cfg, i)
+
+
+def run_mixed_op(mon, i, op):
+    """Execute one op of a mixed history; returns a status string.  Sets mon.stop when the run cannot go on."""
+    sim = mon.sim
+    kind = op["op"]
+    if kind == "simulate":
+        status, ret = mon.execute(op)
+        if status == "ok":
+            mu, on = ret, False
+            for t in op.get("toggles", []):
+                if t == "set":
+                    mu.set_updated_values()
+                    on = True
+                else:
+                    mu.reset_values()
+                    on = False
+            if on:
+                mu.reset_values()
+            mon.res.count("fault:simulation")
+            return "ok"
+        mon.res.count("fault:simulation_raised")
+        return "raised" if status == "raised" else status
+    if kind == "restart":
+        status, ret = mon.execute(op)
+        if status != "ok":
+            mon.stop = "restart_failed"
+            return status
+        saved, new_world = ret
+        for n in list(sim.spec["order"]):
+            if n not in new_world.objs:
+                del sim.spec["objs"][n]
+                sim.spec["order"].remove(n)
+        sim.world = new_world
+        mon.res.count("fault:restart")
+        return "ok"
+    if kind in ("bad_set", "read"):
+        status, ret = mon.execute(op)
+        mon.res.count("fault:" + ("refused_edit" if kind == "bad_set" else "read"))
+        if kind == "bad_set" and status == "ok":
+            mon.stop = "invalid_value_accepted"
+        return status
+    revert = None
+    if op.get("fault") == "F2" and kind == "set":
+        revert = {"op": "set", "revert": True, "obj": op["obj"], "attr": op["attr"],
+                  "value": copy.deepcopy(sim.spec["objs"][op["obj"]]["attrs"][op["attr"]]),
+                  "src": sim.spec["objs"][op["obj"]].get("src", {}).get(op["attr"])}
+    status, ret = mon.execute(op)
+    if op.get("revert"):
+        if status == "ok":
+            mon.broken_reverts = []
+            mon.res.count("fault:recovered")
+            return "ok"
+        mon.stop = "revert_failed"
+        return status
+    if status == "raised":
+        if revert is not None and crash_site(ret):
+            mon.broken_reverts = [revert]
+            mon.res.count("fault:failed_recomputation")
+            return "failed"
+        mon.res.count("ended_on_raise:" + type(ret).__name__)
+        mon.stop = "op_raised"
+        return "raised"
+    if status == "hang":
+        mon.stop = "hang_in_plain_edit"
+    return status
+
+
+# ---------------------------------------------------------------------------------------------------
+# C07
+
+ARITH = {"+", "-", "*", "/"}
+
+
+class C07(BaseMonitor):
+    """Every computed value is reproduced by the formula it displays."""
+    prop = "C07"
+
+    @staticmethod
+    def spec_generator(k, cfg, index):
+        if index % 2 == 0:
+            cfg["builders"] = True
+        return gen.gen_spec(k, cfg)
+
+    def on_start(self):
+        self.broken_reverts = []
+        self.walk_all(-1, {"op": "initial"})
+
+    def next_op(self, i):
+        return gen_mixed_op(self, i)
+
+    def step(self, i, op):
+        status = run_mixed_op(self, i, op)
+        if self.stop or status in ("skip",):
+            return status
+        if self.broken_reverts:
+            return status          # explanation trees are judged on a model that is not mid-failure
+        self.walk_all(i, op)
+        return status
+
+    # -- independent re-evaluation of a recorded binary operation ---------------------------------
+    @staticmethod
+    def reevaluate(op, left, right):
+        """-> normalised expected value, or None when the combination is not one the statement covers."""
+        import pandas as pd
+        from efootprint.abstract_modeling_classes.explainable_objects import (
+            EmptyExplainableObject, ExplainableQuantity, ExplainableHourlyQuantities)
+        le, re_ = isinstance(left, EmptyExplainableObject), isinstance(right, EmptyExplainableObject)
+        if le and re_:
+            return ("e",)
+        if le or re_:
+            other = right if le else left
+            if op in ("+",):
+                return C.norm(other)
+            if op == "-":
+                return C.norm(other) if re_ else None
+            if op == "*":
+                return ("e",)
+            if op == "/":
+                return ("e",) if le else None
+        lq, rq = isinstance(left, ExplainableQuantity), isinstance(right, ExplainableQuantity)
+        lh, rh = isinstance(left, ExplainableHourlyQuantities), isinstance(right, ExplainableHourlyQuantities)
+        if not ((lq or lh) and (rq or rh)):
+            return None
+        a, b = left.value, right.value
+        if lq and rq:
+            val = {"+": lambda: a + b, "-": lambda: a - b, "*": lambda: a * b, "/": lambda: a / b}[op]()
+            return C.norm(ExplainableQuantity(val, "expected"))
+        if lh and rh:
+            if op == "+":
+                val = a.add(b, fill_value=0 * left.unit)
+            elif op == "*":
+                val = a.mul(b, fill_value=0)
+            elif op == "-":
+                if not a.index.equals(b.index):
+                    return None
+                val = a - b
+            else:
+                return None
+        else:
+            if op == "*":
+                val = (a * b) if lh else (b * a)
+            elif op == "/":
+                val = a / b
+            else:
+                return None
+        if not isinstance(val, pd.DataFrame):
+            return None
+        return C.norm(ExplainableHourlyQuantities(val, "expected"))
+
+    def walk_all(self, i, op):
+        from efootprint.abstract_modeling_classes.explainable_objects import EmptyExplainableObject
+        from efootprint.abstract_modeling_classes.source_objects import SourceValue, SourceObject, SourceHourlyValues
+        SOURCE_TYPES = (SourceValue, SourceObject, SourceHourlyValues)
+        sim = self.sim
+        inside = S.closure(sim.spec)
+        inside_set = set(inside)
+        memo = set()
+        bad = []
+        n_nodes = n_arith = n_leaves = 0
+        for n in inside:
+            obj = sim.world.objs[n]
+            calc = set(obj.calculated_attributes)
+            for attr in obj.calculated_attributes:
+                v = getattr(obj, attr, None)
+                if v is None:
+                    bad.append(((n, attr), "calculated attribute is None"))
+                    continue
+                entries = list(v.items()) if isinstance(v, dict) else [(None, v)]
+                for key, e in entries:
+                    where = (n, attr)
+                    if not e.label:
+                        bad.append((where, "attached value has no label"))
+                    try:
+                        e.explain()
+                        e.explain(pretty_print=False)
+                    except Exception as ex:
+                        bad.append((where, f"explain() raises {type(ex).__name__}: {str(ex)[:100]}"))
+                    stack = [e]
+                    while stack:
+                        node = stack.pop()
+                        if id(node) in memo:
+                            continue
+                        memo.add(id(node))
+                        n_nodes += 1
+                        lp, rp, oper = node.left_parent, node.right_parent, node.operator
+                        if lp is None and rp is None:
+                            n_leaves += 1
+                            if isinstance(node, EmptyExplainableObject):
+                                if not node.label:
+                                    bad.append((where, "empty leaf without label"))
+                                continue
+                            if not node.label:
+                                bad.append((where, f"leaf {str(node)[:40]} has no label"))
+                            elif getattr(node, "source", None) is None:
+                                bad.append((where, f"leaf '{node.label}' has no source"))
+                            cont = node.modeling_obj_container
+                            # a value computed from others must record them: a calculated attribute may only be a leaf
+                            # when its update function deliberately installs a sourced constant (Source* object), and
+                            # objects outside the system (never computed) are not judged
+                            if (cont is not None and node.attr_name_in_mod_obj_container in cont.calculated_attributes
+                                    and cont.name in inside_set and not isinstance(node, SOURCE_TYPES)):
+                                bad.append((where, f"leaf '{node.label}' is a calculated attribute "
+                                                   f"({type(cont).__name__}.{node.attr_name_in_mod_obj_container}), not an input"))
+                            continue
+                        if oper in ARITH and lp is not None and rp is not None:
+                            try:
+                                want = self.reevaluate(oper, lp, rp)
+                            except Exception as ex:
+                                want = None
+                                bad.append((where, f"re-evaluating '{(lp.label or '?')[:30]} {oper} {(rp.label or '?')[:30]}' "
+                                                   f"raises {type(ex).__name__}: {str(ex)[:80]}"))
+                            if want is not None:
+                                n_arith += 1
+                                ok, why = C.phys_equal(C.norm(node), want)
+                                if not ok:
+                                    bad.append((where, f"node '{(node.label or '(intermediate)')[:50]}' = "
+                                                       f"'{(lp.label or '?')[:30]}' {oper} '{(rp.label or '?')[:30]}' "
+                                                       f"is not reproduced: {why}"))
+                        if lp is not None:
+                            stack.append(lp)
+                        if rp is not None:
+                            stack.append(rp)
+        self.res.count("nodes_walked", n_nodes)
+        self.res.count("arithmetic_nodes_reevaluated", n_arith)
+        self.res.count("leaves_checked", n_leaves)
+        if bad:
+            # group by kind of problem so that known findings (inline constants) stay separable
+            leaf_no_source = [b for b in bad if "has no source" in b[1]]
+            others = [b for b in bad if "has no source" not in b[1]]
+            if others:
+                raise Violation("C07", "explanation_not_faithful", self.where_of(others), self.fmt(others), i, op_kind(op))
+            tolerated = set(self.opts.get("tolerated_leaf_labels", []))
+            labels = sorted({b[1].split("'")[1] for b in leaf_no_source})
+            unknown = [lab for lab in labels if lab not in tolerated]
+            self.res.count("known_leaf_without_source", len(leaf_no_source) if not unknown else 0)
+            if unknown:
+                raise Violation("C07", "leaf_without_source", set(labels), self.fmt(leaf_no_source), i, op_kind(op))
+
+
+MONITORS["C07"] = C07
+
+
+# ---------------------------------------------------------------------------------------------------
+# C08
+
+def current_values(world, names_):
+    """Every value currently held by the named objects (inputs, calculated values, dict entries)."""
+    from efootprint.abstract_modeling_classes.explainable_object_base_class import ExplainableObject
+    out = []
+    for n in names_:
+        obj = world.objs[n]
+        for attr, v in obj.__dict__.items():
+            if attr in identity.BOOKKEEPING or attr.startswith("initial_total"):
+                continue
+            if isinstance(v, dict):
+                for e in v.values():
+                    if isinstance(e, ExplainableObject) and e.modeling_obj_container is obj:
+                        out.append((n, attr, e))
+            elif isinstance(v, ExplainableObject):
+                out.append((n, attr, v))
+    return out
+
+
+class C08(BaseMonitor):
+    """The calculation graph is consistent and complete."""
+    prop = "C08"
+
+    @staticmethod
+    def spec_generator(k, cfg, index):
+        if index % 2 == 0:
+            cfg["builders"] = True
+        return gen.gen_spec(k, cfg)
+
+    def on_start(self):
+        self.broken_reverts = []
+        self.check_graph(-1, {"op": "initial"})
+
+    def next_op(self, i):
+        return gen_mixed_op(self, i)
+
+    def step(self, i, op):
+        sim = self.sim
+        plain_input_edit = (op["op"] == "set" and op["value"][0] in ("q", "s", "tz", "h", "e") and not op.get("fault")
+                            and not op.get("revert") and not self.broken_reverts and op["obj"] in sim.spec["objs"]
+                            and op["obj"] in S.closure(sim.spec))
+        pre = None
+        if plain_input_edit:
+            pre = self.before_edit(op)
+        status = run_mixed_op(self, i, op)
+        if self.stop or status == "skip":
+            return status
+        if self.broken_reverts:
+            return status
+        if pre is not None and status == "ok":
+            self.check_completeness(i, op, pre)
+        self.check_graph(i, op)
+        return status
+
+    # -- completeness and update order ------------------------------------------------------------
+    def before_edit(self, op):
+        sim = self.sim
+        x = getattr(sim.world.objs[op["obj"]], op["attr"])
+        try:
+            desc = x.all_descendants_with_id
+            chain = x.attr_updates_chain
+        except Exception as e:
+            return {"error": e}
+        pre = {"desc_ids": [d.id for d in desc], "chain_ids": [c.id for c in chain], "spec": S.clone(sim.spec)}
+        # ancestors (id level, union over the values sharing an id) of every chain element, for the order check
+        anc = {}
+        for c in chain:
+            members = list(c.values()) if isinstance(c, dict) else [c]
+            ids = set()
+            for m in members:
+                ids |= {a.id for a in m.direct_ancestors_with_id if a.modeling_obj_container is not None}
+            anc[c.id] = ids
+        pre["anc"] = anc
+        return pre
+
+    def check_completeness(self, i, op, pre):
+        sim = self.sim
+        if "error" in pre:
+            e = pre["error"]
+            raise Violation("C08", "graph_walk_raises", {type(e).__name__},
+                            f"deriving descendants / update order of {op['obj']}.{op['attr']} raises "
+                            f"{type(e).__name__}: {str(e)[:160]}", i, op_kind(op))
+        before_spec, after_spec = pre["spec"], sim.spec
+        if before_spec["objs"][op["obj"]]["attrs"].get(op["attr"]) == after_spec["objs"][op["obj"]]["attrs"].get(op["attr"]):
+            return
+        try:
+            w0 = S.build_world(before_spec, sim.salt)
+            w1 = S.build_world(after_spec, sim.salt)
+        except Exception:
+            self.res.count("left_envelope")
+            return
+        names_ = S.closure(after_spec)
+        changed = C.diff_snapshots(C.calc_snapshot(w0, names_), C.calc_snapshot(w1, names_), self.cls_of)
+        desc = set(pre["desc_ids"])
+        missing = []
+        for (n, attr), why in changed:
+            vid = f"{attr}-in-{sim.world.objs[n].id}"
+            if vid not in desc:
+                missing.append(((n, attr), f"changes when {op['obj']}.{op['attr']} changes ({why[:60]}) but is not among "
+                                           f"its descendants"))
+        self.res.count("completeness_pairs_checked", len(changed))
+        if missing:
+            raise Violation("C08", "incomplete_graph", self.where_of(missing), self.fmt(missing), i, op_kind(op))
+        chain = pre["chain_ids"]
+        if len(set(chain)) != len(chain):
+            dup = sorted({c for c in chain if chain.count(c) > 1})
+            raise Violation("C08", "update_order_repeats", {d.split("-in-")[0] for d in dup},
+                            f"update order of {op['obj']}.{op['attr']} lists {dup[:3]} more than once", i, op_kind(op))
+        if set(chain) != desc:
+            only_d, only_c = sorted(desc - set(chain)), sorted(set(chain) - desc)
+            raise Violation("C08", "update_order_incomplete", {d.split("-in-")[0] for d in only_d + only_c},
+                            f"update order of {op['obj']}.{op['attr']} misses descendants {only_d[:3]} / lists "
+                            f"non-descendants {only_c[:3]}", i, op_kind(op))
+        pos = {c: p for p, c in enumerate(chain)}
+        for c in chain:
+            for a in pre["anc"].get(c, ()):
+                if a in pos and pos[a] > pos[c]:
+                    raise Violation("C08", "update_order_wrong", {c.split("-in-")[0]},
+                                    f"update order of {op['obj']}.{op['attr']}: {c} comes before its ancestor {a}", i,
+                                    op_kind(op))
+        self.res.count("update_orders_checked")
+
+    # -- consistency ------------------------------------------------------------------------------
+    def check_graph(self, i, op):
+        sim = self.sim
+        names_ = S.closure(sim.spec)
+        vals = current_values(sim.world, names_)
+        bad = []
+        anc_of, ch_of = {}, {}          # id-level union over the values sharing an id
+        for n, attr, v in vals:
+            anc_of.setdefault(v.id, set())
+            ch_of.setdefault(v.id, set())
+        for n, attr, v in vals:
+            for a in v.direct_ancestors_with_id:
+                if not identity.is_current(a):
+                    bad.append(((n, attr), f"lists an ancestor that the model no longer holds ('{(a.label or '?')[:40]}')"))
+                else:
+                    anc_of[v.id].add(a.id)
+            for c in v.direct_children_with_id:
+                if not identity.is_current(c):
+                    bad.append(((n, attr), f"lists a child that the model no longer holds ('{(c.label or '?')[:40]}')"))
+                else:
+                    ch_of[v.id].add(c.id)
+        names_set = set(names_)
+        id_owner = {v.id: (n, attr) for n, attr, v in vals}
+        for vid, ancs in anc_of.items():
+            for a in ancs:
+                if a in ch_of and vid not in ch_of[a]:
+                    bad.append((id_owner[vid], f"lists {a} as ancestor but is not listed among its children"))
+        for vid, chs in ch_of.items():
+            for c in chs:
+                if c in anc_of and vid not in anc_of[c]:
+                    bad.append((id_owner[vid], f"lists {c} as child but is not listed among its ancestors"))
+        # cycle detection on the id-level graph
+        state = {}
+        for root in ch_of:
+            if root in state:
+                continue
+            stack = [(root, iter(sorted(ch_of.get(root, ()))))]
+            state[root] = 1
+            while stack:
+                node, it = stack[-1]
+                nxt = next(it, None)
+                if nxt is None:
+                    state[node] = 2
+                    stack.pop()
+                    continue
+                if nxt not in ch_of:
+                    continue
+                if state.get(nxt) == 1:
+                    bad.append((id_owner.get(nxt, ("?", "?")), f"cycle through {nxt}"))
+                    state[nxt] = 2
+                elif nxt not in state:
+                    state[nxt] = 1
+                    stack.append((nxt, iter(sorted(ch_of.get(nxt, ())))))
+        # export
+        try:
+            for n in names_:
+                obj = sim.world.objs[n]
+                js = obj.to_json(True)
+                for attr, v in js.items():
+                    entries = []
+                    if isinstance(v, dict) and "direct_ancestors_with_id" in v:
+                        live = obj.__dict__.get(attr)
+                        entries.append((v, live))
+                    elif isinstance(v, dict) and v and all(isinstance(x, dict) and "direct_ancestors_with_id" in x
+                                                           for x in v.values()):
+                        live_d = obj.__dict__.get(attr)
+                        by_id = {(k_ if isinstance(k_, str) else k_.id): e for k_, e in live_d.items()}
+                        for key, x in v.items():
+                            entries.append((x, by_id.get(key)))
+                    for exported, live in entries:
+                        if live is None:
+                            bad.append(((n, attr), "exported value has no live counterpart"))
+                            continue
+                        if sorted(exported["direct_ancestors_with_id"]) != sorted(
+                                a.id for a in live.direct_ancestors_with_id if a.modeling_obj_container is not None) or \
+                                sorted(exported["direct_children_with_id"]) != sorted(
+                                    c.id for c in live.direct_children_with_id if c.modeling_obj_container is not None):
+                            bad.append(((n, attr), "exported edges differ from the live ones"))
+        except Exception as e:
+            bad.append((("sys", "to_json"), f"exporting the graph raises {type(e).__name__}: {str(e)[:120]}"))
+        self.res.count("graph_nodes_checked", len(vals))
+        if bad:
+            raise Violation("C08", "inconsistent_graph", self.where_of(bad), self.fmt(sorted(set(bad))), i, op_kind(op))
+
+
+MONITORS["C08"] = C08
